@@ -40,7 +40,7 @@ def main():
     i = 0
     while i < len(a):
         if a[i] == "--dir":
-            d = a[i + 1]; i += 1
+            d = os.path.abspath(a[i + 1]); i += 1
         else:
             glob = a[i]
         i += 1
